@@ -8,7 +8,8 @@
 
    Time: [now] and the timer are absolute microseconds (cached_time); TrackerState times are
    absolute seconds (cached_seconds = now / 10^6). Counters are unbounded (uint32 in the code; a
-   wrap needs 2^32 replies). Scrapes are not modelled (no scrapable tracker, no scrape_request),
+   wrap needs 2^32 replies). Trackers may be inserted while running (OInsert). Scrapes and the DHT
+   tracker kind are not modelled (no scrapable tracker, no scrape_request, no TRACKER_DHT worker),
    so latest_event is never EVENT_SCRAPE and is_requesting_not_scrape = is_requesting.
    internal_error throws in update_timeout / send_event / tracker_next_timeout_promiscuous are
    guarded by the callers' own tests and not modelled (the harness prints ERR:internal if hit). *)
